@@ -37,9 +37,9 @@ ASSUMPTIONS = {
     'C12': ['axioms checked by independent code in sim/refmodel.py'],
 }
 TIERS = {
-    'C01': {'quick': dict(runs=6000, budget_s=120, hashseeds=4, minimise_s=60),
+    'C01': {'quick': dict(runs=12000, budget_s=300, hashseeds=4, minimise_s=60),
             'thorough': dict(runs=None, budget_s=600, hashseeds=16, minimise_s=240)},
-    'C12': {'quick': dict(runs=12000, budget_s=120, hashseeds=4, minimise_s=60),
+    'C12': {'quick': dict(runs=24000, budget_s=300, hashseeds=4, minimise_s=60),
             'thorough': dict(runs=None, budget_s=600, hashseeds=16, minimise_s=240)},
 }
 RUN_LIMIT_S = {'C01': 60, 'C12': 60}
